@@ -111,6 +111,7 @@ func NewCWorld(e *Env, c CWorldCfg) *CWorld {
 		w.API = w.UCC
 		w.U.OnPeer = func(m *WMsg, _ *Dgram) {
 			w.Recv++
+			e.Pool.CheckWire(m)
 			if w.OnRecv != nil {
 				w.OnRecv(m)
 			}
@@ -131,6 +132,9 @@ func NewCWorld(e *Env, c CWorldCfg) *CWorld {
 		}
 		if cfg.MessagePool == nil {
 			cfg.MessagePool = pool.New(0, 0)
+		}
+		if e.PoolCapacity > 0 {
+			cfg.MessagePool = pool.New(e.PoolCapacity, 2048)
 		}
 		createBlockWise := func(*udpClient.Conn) *blockwise.BlockWise[*udpClient.Conn] { return nil }
 		if cfg.BlockwiseEnable {
@@ -287,6 +291,7 @@ func (w *CWorld) Pump() {
 				continue
 			}
 			w.Recv++
+			w.E.Pool.CheckWire(m)
 			if w.OnRecv != nil {
 				w.OnRecv(m)
 			}
